@@ -30,8 +30,11 @@ class Resource:
         # (a buffer, a queue, a pool: every other resource is one that happens to be empty - which does not make it nothing)
         return self.rid % 2
 
+    parts = None
+
     def close(self):
         self.lab.log.append({"e": "ResClose", "r": self.rid})
+        self.parts = None       # (the whole lets go of its parts)
         if self.raises == "untrack":
             # a tidy resource: tells the call context that it need not be tracked any longer
             try:
@@ -52,8 +55,16 @@ def make_targets(lab):
             return tok
 
         def track(self, rid):
-            lab.current_context.track_resource(lab.resources[rid])
+            res = lab.resources[rid]
+            lab.current_context.track_resource(res)
             lab.log.append({"e": "Track", "c": lab.conn_of_context(), "r": rid})
+            if rid == 2 and getattr(res, "parts", None) is None:
+                # a resource with parts of its own (a transaction and its cursors): the parts are tracked as well, and the whole is
+                # the only one that holds on to them - it lets go of them when it is closed
+                res.parts = [Resource(lab, 6 + k) for k in (1, 2)]     # (ids 7 and 8: nothing else uses them)
+                for part in res.parts:
+                    lab.current_context.track_resource(part)
+                    lab.log.append({"e": "Track", "c": lab.conn_of_context(), "r": part.rid})
             return rid
 
         def gen(self, n):
